@@ -177,7 +177,11 @@ def handleE (line : String) : Except String String := do
       let ls ← mapM' (fun x => do asLog (← parseMsg x)) (← arrF o "logs")
       let cs ← mapM' (fun x => do asCwe (← parseMsg x)) (← arrF o "cwes")
       pure (some (ls, cs))
-  let dup := if nodupB hs.flatten then "" else " identical-messages"
+  let dup0 := if nodupB hs.flatten then "" else " identical-messages"
+  let tag := match optF j "tag" with
+    | some (.str t) => if t.isEmpty then "" else " " ++ t
+    | _ => ""
+  let dup := dup0 ++ tag
   let pres := hs.map pre
   let sent := (pres.map List.length).sum
   let panicExpected := pres.any fun h => (cwesOf h).any fun w => w.addrs.isEmpty
@@ -190,11 +194,11 @@ def handleE (line : String) : Except String String := do
     if impl != model then return s!"diff class={mode}-panic model={showOut model} impl={showOut impl}"
     return s!"ok {mode} modelonly panic{cut}"
   match impl with
-  | none => return s!"spec class={mode}-panic expected=a-result impl=panic"
+  | none => return s!"spec class={mode}-panic expected=a-result impl=panic{tag}"
   | some (logs, cwes) =>
     if let some v := specViolation pres logs cwes then
       let model := if mode == "single" then showOut (collector leL leC (hs.flatten ++ [.terminate])) else "some-interleaving"
-      return s!"spec class={mode}-{v} expected={model} impl={showOut impl}"
+      return s!"spec class={mode}-{v} expected={model} impl={showOut impl}{tag}"
     let dd := if logs.length + cwes.length < sent then " dedup" else ""
     if mode == "single" then
       let model := collector leL leC (hs.flatten ++ [.terminate])
